@@ -1,0 +1,25 @@
+//go:build verif
+
+package methods
+
+// Contracts for package methods (comment-only; read by /verif/govc).
+
+//@ func IsSafelisted
+//@   props C02 C03 C04 C05 C09 C10 C11 C15 C16 C17 C18
+//@   pure
+//@   allocs <= 0
+
+//@ func IsValid
+//@   props C04 C05 C15 C17
+//@   pure
+//@   allocs <= 0
+
+//@ func IsForbidden
+//@   props C04 C05 C15 C17
+//@   pure
+//@   allocs <= 1
+
+//@ func Normalize
+//@   props C04 C05 C15 C17
+//@   pure
+//@   allocs <= 1
